@@ -42,6 +42,8 @@ def run(ck: Check):
     for i in range(80 if quick else 800):
         n = r.randint(2, 24)
         tc = (b"", [bytes([97 + j]) for j in range(n)], [True] * n, b"")
+        if i % 3:       # distinct atoms with brackets: pairs / partners are deleted together, each such test counts too
+            tc = (b"", [(b"{ //%d\n", b"} //%d\n", b"x%d\n", b"( //%d\n", b") //%d\n")[(j * 7 + i) % 5] % j for j in range(n)], [True] * n, b"")
         limit = r.choice([0, 0, 1, 5, 10])
         t, clock = (100 if i % 2 else 100.25), []
         for _ in range(200):
